@@ -1,17 +1,342 @@
-import Xp.Model.C16
+import Xp.Proofs.C16History
 /-
-C16 property theorems (work in progress: first obligation only).
+C16 — establishing package objects is all-or-nothing and respects the
+active/inactive role.
+
+Every theorem is stated for an ARBITRARY API-server rejection predicate
+`rejects : Obj → Bool`, an ARBITRARY fault plan `fault` (an error or a crash at the
+Get, the dry-run write or the real write of any object), ARBITRARY goroutine
+completion orders `vorder`/`eorder` (and, for ReleaseObjects, an arbitrary set
+`ran` of goroutines that got past the cancellation check), and every initial
+store that is well formed (`WF`: object keys unique, resourceVersions fresh —
+the two guarantees of the API server the argument needs).
+
+Vocabulary (defined in Xp/Proofs/C16*.lean):
+  `hasUid l u`  — some owner reference in `l` has uid `u`
+  `ctrl l u`    — some owner reference in `l` with uid `u` has controller=true
+  `submission`  — the object Establish would send for a package object
+  `ForeignControlled p s d` — the stored object has a controller reference that is
+                  neither `p`'s nor `p`'s package's
 -/
 namespace Xp.C16
 
-theorem apiCreate_dry (rejects : Obj → Bool) (oc : Outcome) (s : Store) (o : Obj) :
-    (apiCreate rejects true oc s o).1 = s := by
-  unfold apiCreate
-  split <;> (try split) <;> simp [logW]
+/-! ## 1. All-or-nothing -/
 
-theorem apiUpdate_dry (rejects : Obj → Bool) (oc : Outcome) (s : Store) (o : Obj) :
-    (apiUpdate rejects true oc s o).1 = s := by
-  unfold apiUpdate
-  split <;> (try split) <;> simp [logW]
+/-- The validate phase (every create/update as a dry run) never changes the store
+nor issues a real write, whatever happens. -/
+theorem validate_writes_nothing (rejects : Obj → Bool) (fault : Fault) (p : Parent) (control : Bool)
+    (s : Store) (xs : List (Nat × Desired)) :
+    (validateAll rejects fault p control s xs).1 = s :=
+  validateAll_store rejects fault p control s xs
+
+/-- **All or nothing.** If some object of the package (the `j`-th, whose goroutine is
+among those that ran) cannot be taken over — an active revision finds it
+controlled by a different revision or owner — or the API server would reject what
+Establish submits for it, then Establish fails and the store *and the log of
+non-dry-run writes* are exactly what they were: no object of the package is
+created or modified and no real write is even attempted. For every fault plan
+and every completion order. -/
+theorem all_or_nothing (rejects : Obj → Bool) (fault : Fault) (p : Parent) (control : Bool)
+    (s : Store) (objs : List Desired) (vorder eorder : List Nat)
+    (j : Nat) (d : Desired) (hd : objs[j]? = some d) (hj : j ∈ vorder)
+    (hb : (control = true ∧ ForeignControlled p s d) ∨
+          (∃ o, submission p control s d = some o ∧ rejects o = true)) :
+    (establish rejects fault p control s objs vorder eorder).1 = s ∧
+    ∀ refs, (establish rejects fault p control s objs vorder eorder).2 ≠ .ok refs := by
+  have hs := validateAll_store rejects fault p control s (pick objs vorder)
+  have hf := validateAll_failed rejects fault p control s (pick objs vorder) j d
+    (mem_pick objs vorder j d hd hj) (validateOne_blocked rejects fault p control s j d hb)
+  unfold establish
+  split <;> rename_i heq <;> rw [heq] at hs hf
+  · exact absurd hf (by simp [R.failed])
+  · exact ⟨hs, fun _ h => by cases h⟩
+  · exact ⟨hs, fun _ h => by cases h⟩
+
+/-! ## 2. Role laws of one Establish -/
+
+/-- **An inactive revision never creates anything**: the keys present after
+Establish(control = false) are exactly the keys present before. -/
+theorem inactive_never_creates (rejects : Obj → Bool) (fault : Fault) (p : Parent)
+    (s : Store) (objs : List Desired) (vorder eorder : List Nat) (hw : WF s) :
+    let s' := (establish rejects fault p false s objs vorder eorder).1
+    (∀ o' ∈ s'.objs, ∃ o ∈ s.objs, o.key = o'.key) ∧ (∀ o ∈ s.objs, ∃ o' ∈ s'.objs, o'.key = o.key) := by
+  have h := (establish_inv rejects fault p false s objs vorder eorder hw).ev
+  constructor
+  · intro o' ho'
+    rcases h.bwd o' ho' with ⟨o, ho, hk, _⟩ | ⟨_, hc⟩
+    · exact ⟨o, ho, hk⟩
+    · exact absurd hc.active (by simp)
+  · intro o ho
+    obtain ⟨o', ho', hk, _⟩ := h.fwd o ho
+    exact ⟨o', ho', hk⟩
+
+/-- **An inactive revision is at most a plain owner**: every object after
+Establish(control = false) is either untouched, or it is the old object with the
+same content, no owner entry dropped, no new controller (so the revision did not
+become controller), and the revision present as a plain owner reference
+(`controller` unset). -/
+theorem inactive_plain_owner (rejects : Obj → Bool) (fault : Fault) (p : Parent)
+    (s : Store) (objs : List Desired) (vorder eorder : List Nat) (hw : WF s) :
+    ∀ o' ∈ (establish rejects fault p false s objs vorder eorder).1.objs,
+      ∃ o ∈ s.objs, o.key = o'.key ∧
+        (o' = o ∨ (o'.body = o.body ∧ asOwner p ∈ o'.owners ∧
+                   (∀ u, hasUid o.owners u → hasUid o'.owners u) ∧
+                   (∀ u, ctrl o'.owners u → ctrl o.owners u))) := by
+  have h := (establish_inv rejects fault p false s objs vorder eorder hw).ev
+  intro o' ho'
+  rcases h.bwd o' ho' with ⟨o, ho, hk, hr⟩ | ⟨_, hc⟩
+  · refine ⟨o, ho, hk, hr.imp id fun q => ⟨q.body rfl, q.mine, q.uids, fun u hu => ?_⟩⟩
+    rcases q.ctrls u hu with h | ⟨h, _⟩
+    · exact h
+    · cases h
+  · exact absurd hc.active (by simp)
+
+/-- **Only an active revision becomes controller, and it controls what it writes**:
+every object after Establish(control = true) is either untouched or carries the
+controller reference of the parent, which is then its only controller; and no
+owner entry was dropped. -/
+theorem active_controls (rejects : Obj → Bool) (fault : Fault) (p : Parent)
+    (s : Store) (objs : List Desired) (vorder eorder : List Nat) (hw : WF s) :
+    ∀ o' ∈ (establish rejects fault p true s objs vorder eorder).1.objs,
+      o' ∈ s.objs ∨
+      (asController p ∈ o'.owners ∧ (∀ u, ctrl o'.owners u → u = p.uid) ∧
+       ∀ o ∈ s.objs, o.key = o'.key → ∀ u, hasUid o.owners u → hasUid o'.owners u) := by
+  have hinv := establish_inv rejects fault p true s objs vorder eorder hw
+  have h := hinv.ev
+  intro o' ho'
+  rcases h.bwd o' ho' with ⟨o, ho, hk, hr⟩ | ⟨hnew, hc⟩
+  · rcases hr with e | q
+    · exact Or.inl (e ▸ ho)
+    · refine Or.inr ⟨q.mine, fun u ⟨r, hr, hu, hc⟩ => ?_, fun o2 ho2 hk2 => ?_⟩
+      · have := ctrl_unique _ r (asController p) q.valid hr q.mine hc rfl
+        rw [← hu, this]; rfl
+      · have : o2 = o := hw.keys o2 ho2 o ho (hk2.trans hk.symm)
+        subst this
+        exact q.uids
+  · exact Or.inr ⟨hc.mine, hc.ctrls, fun o ho hk => absurd hk (hnew o ho)⟩
+
+/-- **A successful Establish covers the whole package**: if Establish reports
+success, every object of the package (whose goroutines are in both completion
+orders) exists and carries the parent's reference — controller reference for an
+active parent; for an inactive parent the plain owner reference, provided the
+object existed (an inactive revision creates nothing). -/
+theorem establish_success_covers (rejects : Obj → Bool) (fault : Fault) (p : Parent) (control : Bool)
+    (s s' : Store) (objs : List Desired) (vorder eorder : List Nat) (refs : List Ref) (hw : WF s)
+    (h : establish rejects fault p control s objs vorder eorder = (s', .ok refs))
+    (j : Nat) (d : Desired) (hd : objs[j]? = some d) (hv : j ∈ vorder) (he : j ∈ eorder)
+    (hc : control = true ∨ (s.get d.key).isSome = true) :
+    ∃ o' ∈ s'.objs, o'.key = d.key ∧ (if control then asController p else asOwner p) ∈ o'.owners :=
+  establish_ok rejects fault p control s s' objs vorder eorder refs hw h j d hd hv he hc
+
+/-- **The package is a plain owner of every established object**: whenever the
+parent's owner reference to its package resolves (to `q`, a different object than
+the revision), every object Establish created or modified — active or inactive —
+carries `q` with controller=false. -/
+theorem package_is_plain_owner (rejects : Obj → Bool) (fault : Fault) (p : Parent) (control : Bool)
+    (s : Store) (objs : List Desired) (vorder eorder : List Nat) (hw : WF s)
+    (q : ORef) (hq : pkgRef p = some q) (hne : q.uid ≠ p.uid) :
+    ∀ o' ∈ (establish rejects fault p control s objs vorder eorder).1.objs,
+      o' ∈ s.objs ∨ (q ∈ o'.owners ∧ q.controller = some false) := by
+  have h := (establish_inv rejects fault p control s objs vorder eorder hw).ev
+  intro o' ho'
+  rcases h.bwd o' ho' with ⟨o, ho, _, hr⟩ | ⟨_, hc⟩
+  · rcases hr with e | qe
+    · exact Or.inl (e ▸ ho)
+    · exact Or.inr ⟨qe.pkg q hq hne, pkgRef_controller p q hq⟩
+  · exact Or.inr ⟨hc.pkg q hq hne, pkgRef_controller p q hq⟩
+
+/-! ## 3. Deactivation: ReleaseObjects -/
+
+/-- **Deactivation gives up control but keeps ownership**: ReleaseObjects never
+deletes or creates an object, never changes content, never drops an owner entry
+and never makes anybody controller; an object it did write has the revision as an
+owner whose (first) entry is not a controller reference. For every fault plan and
+every set of goroutines that ran. -/
+theorem release_keeps_owner (rejects : Obj → Bool) (fault : Fault) (p : Parent) (ran : Nat → Bool)
+    (s : Store) (refs : List Ref) (order : List Nat) (hw : WF s) :
+    let s' := (release rejects fault p ran s refs order).1
+    (∀ o ∈ s.objs, ∃ o' ∈ s'.objs, o'.key = o.key ∧ o'.body = o.body ∧
+        (∀ u, hasUid o.owners u → hasUid o'.owners u) ∧ (∀ u, ctrl o'.owners u → ctrl o.owners u) ∧
+        (o' = o ∨ (hasUid o'.owners p.uid ∧
+                   ∀ r, o'.owners.find? (fun r => r.uid = p.uid) = some r → r.isCtrl = false))) ∧
+    (∀ o' ∈ s'.objs, ∃ o ∈ s.objs, o.key = o'.key) := by
+  have h := (release_inv rejects fault p ran s refs order hw).ev
+  constructor
+  · intro o ho
+    obtain ⟨o', ho', hk, hr⟩ := h.fwd o ho
+    refine ⟨o', ho', hk, ?_⟩
+    rcases hr with e | q
+    · subst e; exact ⟨rfl, fun _ h => h, fun _ h => h, Or.inl rfl⟩
+    · exact ⟨q.body, q.uids, q.ctrls, Or.inr ⟨q.mine, q.released⟩⟩
+  · intro o' ho'
+    rcases h.bwd o' ho' with ⟨o, ho, hk, _⟩ | ⟨_, hf⟩
+    · exact ⟨o, ho, hk⟩
+    · exact hf.elim
+
+/-- **A successful release has released everything it references**: every stored
+object named by a reference (whose goroutine is in the order) has the revision as
+an owner that is not its controller. -/
+theorem release_gives_up_control (rejects : Obj → Bool) (fault : Fault) (p : Parent) (ran : Nat → Bool)
+    (s s' : Store) (refs : List Ref) (order : List Nat) (hw : WF s)
+    (h : release rejects fault p ran s refs order = (s', .ok ()))
+    (j : Nat) (k : Ref) (hk : refs[j]? = some k) (hj : j ∈ order) :
+    ∀ o' ∈ s'.objs, o'.key = k.key → hasUid o'.owners p.uid ∧
+      ∀ r, o'.owners.find? (fun r => r.uid = p.uid) = some r → r.isCtrl = false :=
+  release_ok rejects fault p ran s s' refs order hw h j k hk hj
+
+/-! ## 4. The reconciler and histories -/
+
+/-- **Reconciling an inactive revision** (ReleaseObjects, then Establish(control=false)
+only while `status.objectRefs` is empty) never creates an object, never drops an
+owner entry and never makes anybody controller. -/
+theorem inactive_reconcile_never_creates_or_controls (sys : Sys) (r : Rev) (e : Env)
+    (hw : WF sys.store) (hr : r.active = false) :
+    let s' := (reconcileRev sys r e).1.store
+    (∀ o' ∈ s'.objs, ∃ o ∈ sys.store.objs, o.key = o'.key ∧
+        (∀ u, hasUid o.owners u → hasUid o'.owners u) ∧ (∀ u, ctrl o'.owners u → ctrl o.owners u)) := by
+  have h := (reconcileRev_hinv sys r e hw (fun _ => False) (fun ha => by rw [hr] at ha; cases ha)).ev
+  intro s' o' ho'
+  rcases h.bwd o' ho' with ⟨o, ho, hk, hq⟩ | ⟨_, hc⟩
+  · refine ⟨o, ho, hk, ?_⟩
+    rcases hq with e | q
+    · subst e; exact ⟨fun _ h => h, fun _ h => h⟩
+    · exact ⟨q.uids, fun u hu => (q.ctrls u hu).resolve_right id⟩
+  · obtain ⟨u, hu, _⟩ := hc.owner
+    exact hu.elim
+
+/-- **History corollary** (induction over the history). Take any sequence of
+reconciles of any revisions, each with the desired state it has at that moment
+(upgrades, rollbacks, two revisions active at once, …), in any order, under any
+faults and goroutine orders. Then, comparing the final store with the initial one:
+ * nothing was deleted and no object lost an owner entry;
+ * an owner that is a controller at the end either was one at the start or is a
+   revision that was reconciled as *active* in the history;
+ * an object that did not exist at the start is owned by a revision that was
+   reconciled as active, and controlled by such revisions only. -/
+theorem history_roles (sys : Sys) (h : List (Rev × Env)) (hw : WF sys.store) :
+    let s' := (runHistory sys h).store
+    (∀ o ∈ sys.store.objs, ∃ o' ∈ s'.objs, o'.key = o.key ∧ ∀ u, hasUid o.owners u → hasUid o'.owners u) ∧
+    (∀ o' ∈ s'.objs, ∀ u, ctrl o'.owners u →
+        (∃ o ∈ sys.store.objs, o.key = o'.key ∧ ctrl o.owners u) ∨ ActiveIn h u) ∧
+    (∀ o' ∈ s'.objs, (∀ o ∈ sys.store.objs, o.key ≠ o'.key) → ∃ u, ActiveIn h u ∧ hasUid o'.owners u) := by
+  have hh := (runHistory_hinv sys h hw).ev
+  refine ⟨fun o ho => ?_, fun o' ho' u hu => ?_, fun o' ho' hnew => ?_⟩
+  · obtain ⟨o', ho', hk, hr⟩ := hh.fwd o ho
+    refine ⟨o', ho', hk, ?_⟩
+    rcases hr with e | q
+    · subst e; exact fun _ h => h
+    · exact q.uids
+  · rcases hh.bwd o' ho' with ⟨o, ho, hk, hr⟩ | ⟨_, hc⟩
+    · rcases hr with e | q
+      · subst e; exact Or.inl ⟨o', ho, rfl, hu⟩
+      · exact (q.ctrls u hu).imp (fun h => ⟨o, ho, hk, h⟩) id
+    · exact Or.inr (hc.ctrls u hu)
+  · rcases hh.bwd o' ho' with ⟨o, ho, hk, _⟩ | ⟨_, hc⟩
+    · exact absurd hk (hnew o ho)
+    · exact hc.owner
+
+/-- **No garbage collection during an upgrade.** If an object has an owner `u`
+(e.g. the package, which `package_is_plain_owner` puts on every established
+object) and `u` stays alive, then after any history of reconciles the object
+still exists and the Kubernetes garbage collector does not collect it — whichever
+revisions were deactivated or deleted in between. -/
+theorem never_collected (sys : Sys) (h : List (Rev × Env)) (hw : WF sys.store)
+    (o : Obj) (ho : o ∈ sys.store.objs) (u : Nat) (hu : hasUid o.owners u)
+    (live : Nat → Bool) (hl : live u = true) :
+    ∃ o' ∈ (runHistory sys h).store.objs, o'.key = o.key ∧ gcCollects live o' = false := by
+  obtain ⟨o', ho', hk, hm⟩ := (history_roles sys h hw).1 o ho
+  refine ⟨o', ho', hk, ?_⟩
+  obtain ⟨r, hr, hru⟩ := hm u hu
+  unfold gcCollects
+  have : (o'.owners.all fun r => !live r.uid) = false := by
+    apply Bool.eq_false_iff.mpr
+    intro hall
+    have := List.all_eq_true.mp hall r hr
+    rw [hru, hl] at this
+    cases this
+  rw [this, Bool.and_false]
+
+/-- **A package never becomes a controller**: if no revision reconciled in the
+history has the uid `q` (a package is not a revision) and `q` controls nothing
+initially, `q` controls nothing afterwards — the package stays the plain owner
+that `package_is_plain_owner` made it. -/
+theorem package_never_controller (sys : Sys) (h : List (Rev × Env)) (hw : WF sys.store) (q : Nat)
+    (hq : ∀ x ∈ h, x.1.parent.uid ≠ q) (h0 : ∀ o ∈ sys.store.objs, ¬ ctrl o.owners q) :
+    ∀ o' ∈ (runHistory sys h).store.objs, ¬ ctrl o'.owners q := by
+  intro o' ho' hc
+  rcases (history_roles sys h hw).2.1 o' ho' q hc with ⟨o, ho, _, hco⟩ | ⟨x, hx, _, hxu⟩
+  · exact h0 o ho hco
+  · exact hq x hx hxu
+
+/-- Well-formedness is an invariant of every history (so the hypotheses above are
+available at every intermediate point, and every theorem about one Establish /
+ReleaseObjects / reconcile applies to every step of every history). -/
+theorem history_wf (sys : Sys) (h : List (Rev × Env)) (hw : WF sys.store) : WF (runHistory sys h).store :=
+  (runHistory_hinv sys h hw).wf
+
+/-! ## 5. The hypotheses are satisfiable, and the statements discriminate -/
+
+section Examples
+
+/-- revision 11 of package 1 (its own owner reference points to the package) -/
+def exRev11 : Parent := ⟨11, "pkg-1", [⟨"pkg-1", ⟨1, some true, some true⟩⟩]⟩
+def exRev10 : Parent := ⟨10, "pkg-1", [⟨"pkg-1", ⟨1, some true, some true⟩⟩]⟩
+
+/-- `a` is controlled by revision 20 of another package (2); `c` by the previous revision 10 of package 1 -/
+def exStore : Store :=
+  ⟨[⟨"Composition/a", 1, [⟨20, some true, some true⟩, ⟨2, some false, some true⟩], 1⟩,
+    ⟨"Composition/c", 2, [⟨10, some true, some true⟩, ⟨1, some false, some true⟩], 1⟩], 3, []⟩
+
+def exOk : Obj → Bool := fun _ => false
+def exAll : Nat → Bool := fun _ => true
+
+example : WF exStore := by
+  refine ⟨?_, ?_⟩
+  · intro x hx y hy e
+    simp [exStore] at hx hy
+    rcases hx with rfl | rfl <;> rcases hy with rfl | rfl <;> simp_all
+  · intro o ho
+    simp [exStore] at ho
+    rcases ho with rfl | rfl <;> simp [exStore]
+
+/-- the hypothesis of `all_or_nothing` holds for `a` … -/
+example : ForeignControlled exRev11 exStore ⟨"Composition/a", 7⟩ :=
+  ⟨_, rfl, ⟨20, some true, some true⟩, by simp, rfl, by decide, fun q hq => by
+    simp [pkgRef, exRev11] at hq; subst hq; decide⟩
+
+/-- … and indeed nothing is written although `b` alone could have been created … -/
+example : establish exOk Fault.none exRev11 true exStore [⟨"Composition/b", 5⟩, ⟨"Composition/a", 7⟩] [0, 1] [0, 1]
+    = (exStore, .err .notControllable) := by decide
+
+/-- … while without the blocked object the same call does create `b`, controlled by
+revision 11 and plainly owned by package 1 (the conclusion is not vacuous). -/
+example : (establish exOk Fault.none exRev11 true exStore [⟨"Composition/b", 5⟩] [0] [0]).1.objs =
+    exStore.objs ++ [⟨"Composition/b", 3, [⟨11, some true, some true⟩, ⟨1, some false, some true⟩], 5⟩] := by decide
+
+/-- An upgrade reconciled "in the wrong order": revision 11 is made active and
+reconciled BEFORE the now inactive revision 10 has released `c`. The first
+reconcile fails without touching anything (all-or-nothing); after revision 10 was
+reconciled (release: controller → false, entry kept) revision 11 takes over. -/
+def exEnv : Env := ⟨exOk, Fault.none, [0], [0], [0], exAll, id⟩
+def exSys : Sys := ⟨exStore, fun u => if u = 10 then [⟨"Composition/c", true⟩] else []⟩
+def exNew : Rev := ⟨exRev11, true, [⟨"Composition/c", 9⟩]⟩
+def exOld : Rev := ⟨exRev10, false, [⟨"Composition/c", 1⟩]⟩
+
+example : (reconcileRev exSys exNew exEnv).1.store = exStore := by decide
+
+example : ((runHistory exSys [(exNew, exEnv), (exOld, exEnv), (exNew, exEnv)]).store.get "Composition/c").map (·.owners) =
+    some [⟨10, some false, some true⟩, ⟨1, some false, some true⟩, ⟨11, some true, some true⟩] := by decide
+
+/-- A limit of the guarantee, recorded on purpose: a poorly formed package that
+lists the same object twice passes the dry-run phase (each copy is fine on its
+own) and then fails half-way. No object is "blocked" in the sense of
+`all_or_nothing`, so this is outside the property as worded (the code comments
+acknowledge duplicates, crossplane issue 3466). -/
+example : establish exOk Fault.none exRev11 true ⟨[], 1, []⟩ [⟨"Composition/b", 5⟩, ⟨"Composition/b", 5⟩] [0, 1] [0, 1]
+    = (⟨[⟨"Composition/b", 1, [⟨11, some true, some true⟩, ⟨1, some false, some true⟩], 5⟩], 2,
+        [⟨.create, "Composition/b", none, true⟩, ⟨.create, "Composition/b", some .alreadyExists, false⟩]⟩,
+       .err .alreadyExists) := by decide
+
+end Examples
 
 end Xp.C16
